@@ -360,6 +360,13 @@ def check_are_named(repo: Repo, res: Result) -> FuncInfo | None:
             cs = [c for c in cs if c.cls is not None and repo.is_subclass(rule, c.cls.fq) or (c.cls is not None and repo.is_subclass(c.cls, rule.fq))]
             if cs and how == "repo":
                 handoffs.append((n, cs[0]))
+            elif not cs:
+                # the receiver's type could not be resolved (`rule = self._rule` whose type depends on this very call): a method
+                # that exists on Rule, called on something that is not provably another class, is the hand-off
+                cand = repo.lookup_method(rule, n.func.attr)
+                recv = single_value(view, n.func.value)
+                if cand is not None and not cand.is_property and not _is_self_like(recv) and _types_rule(repo, T, view, n.func.value, rule) is not False and (_types_rule(repo, T, view, recv, rule) is not False):
+                    handoffs.append((n, cand))
     if len(handoffs) != 1:
         if not handoffs:
             res.add("C05.R1", construct, False, "LayerRule.are_named hands no module specifications to the wrapped rule", where(an, an.node), kind="flow")
@@ -927,18 +934,35 @@ def check_filter_selection(repo: Repo, res: Result, receiver: FuncInfo | None) -
 # --------------------------------------------------------------------------- layers_that: the wrapped rule judges with the layer matcher
 
 
-def check_matcher_wiring(repo: Repo, res: Result) -> None:
-    """`layers_that` builds the wrapped Rule with the configured (layer) matcher class bound to the layer mapping of the
-    architecture: without it the module rule is judged per module, not per layer."""
+def layer_matcher_factory(repo: Repo) -> dict:
+    """How `LayerRule.layers_that` equips the wrapped Rule with a matcher.  Whatever the spelling of the factory handed to
+    `Rule(...)` - functools.partial, lambda, bound method, nested function, module-level function - the analysis looks at the
+    *constructions of a matcher* the factory performs when it is called:
+
+      status   'ok' | 'violated' | 'undecided'        detail  explanation        node / view  where
+      kept     name of the field in which the factory keeps the matcher it built (the same matcher serves later evaluations), or None
+    """
+    key = ("c05-matcher-factory", id(repo))
+    cache = repo.__dict__.setdefault("_c05_cache", {})
+    if key in cache:
+        return cache[key]
+    out = cache[key] = _layer_matcher_factory(repo)
+    return out
+
+
+def _layer_matcher_factory(repo: Repo) -> dict:
+    from core.guards import TRUE
+
+    from .common import guard_formula
+
     T = types_of(repo)
     lr = repo.cls(LAYER_RULE, "LayerRule")
     rule = repo.cls(RULE, "Rule")
     m = repo.lookup_method(lr, "layers_that")
-    construct = f"{lr.module.relpath}::LayerRule.layers_that::matcher bound to the layer mapping"
     if m is None or m.is_abstract:
-        res.add("C05.R1", construct, False, "LayerRule.layers_that no longer exists", kind="structural")
-        return
+        return {"status": "violated", "detail": "LayerRule.layers_that no longer exists", "view": None, "node": None, "kept": None, "method": None}
     view = dview(repo, m, lr, family(repo, lr), tag="lr")
+    base = {"view": view, "node": m.node, "kept": None, "method": m}
     ctors = []
     for n in all_nodes(view):
         if isinstance(n, ast.Call):
@@ -951,62 +975,107 @@ def check_matcher_wiring(repo: Repo, res: Result) -> None:
             if ci is not None and ci.fq == rule.fq:
                 ctors.append(n)
     if len(ctors) != 1:
-        res.undecide("C05.R1", construct, f"{len(ctors)} constructions of Rule in the inlined view of layers_that (expected one)", where(m, m.node))
-        return
+        return {**base, "status": "undecided", "detail": f"{len(ctors)} constructions of Rule in the inlined view of layers_that (expected one)"}
     c = ctors[0]
+    base["node"] = c
     arg = next((k.value for k in c.keywords if k.arg and "matcher" in k.arg), None) or (c.args[0] if c.args else None)
     if arg is None:
-        res.add("C05.R1", construct, False, "the wrapped Rule is built with the default (module) matcher: the lenient one-unit-per-layer judgement is not applied", where_of(view, c), kind="structural")
-        return
+        return {**base, "status": "violated", "detail": "the wrapped Rule is built with the default (module) matcher: the lenient one-unit-per-layer judgement is not applied"}
     v = single_value(view, arg)
 
-    def is_layer_mapping(x: ast.expr) -> bool:
-        x = single_value(view, x)
-        if isinstance(x, ast.Attribute) and x.attr == "layer_mapping":
-            return True
+    def typ(fv: FuncInfo, x: ast.expr):
         src = getattr(x, "_src", None)
-        ctx, orig = src if src is not None else (view, x)
+        ctx, orig = src if src is not None else (fv, x)
         try:
-            t = T.expr(ctx, orig)
-        except Exception:  # noqa: BLE001
-            return False
-        return any(mm[0] == "cls" and mm[1].endswith(".LayerMapping") for mm in members(t))
-
-    def is_matcher_class(x: ast.expr) -> bool | None:
-        x = single_value(view, x)
-        src = getattr(x, "_src", None)
-        ctx, orig = src if src is not None else (view, x)
-        try:
-            t = T.expr(ctx, orig)
+            return T.expr(ctx, orig)
         except Exception:  # noqa: BLE001
             return None
-        kinds = [mm for mm in members(t) if mm[0] == "type"]
+
+    def is_layer_mapping(fv: FuncInfo, x: ast.expr) -> bool:
+        x = single_value(fv, x)
+        if isinstance(x, ast.Attribute) and x.attr == "layer_mapping":
+            return True
+        t = typ(fv, x)
+        return t is not None and any(mm[0] == "cls" and mm[1].endswith(".LayerMapping") for mm in members(t))
+
+    def is_matcher_class(fv: FuncInfo, x: ast.expr) -> bool | None:
+        x = single_value(fv, x)
+        t = typ(fv, x)
+        kinds = [mm for mm in members(t) if mm[0] == "type"] if t is not None else []
         if not kinds:
             return None
         names_ = {mm[1].rsplit(".", 1)[-1] for mm in kinds}
+        if not any(repo.classes.get(mm[1]) is not None and any(c_.name == "RuleMatcher" for c_ in repo.mro(repo.classes[mm[1]])) for mm in kinds):
+            return None
         return "LayerRuleMatcher" in names_ or any(n_ not in ("DefaultRuleMatcher", "RuleMatcher") for n_ in names_)
 
-    bound, factory = None, None
-    if isinstance(v, ast.Call) and (v.args or v.keywords):
-        fname = v.func.attr if isinstance(v.func, ast.Attribute) else v.func.id if isinstance(v.func, ast.Name) else ""
-        if fname == "partial" and v.args:
-            factory = v.args[0]
-            bound = [a for a in [*v.args[1:], *[k.value for k in v.keywords]] if is_layer_mapping(a)]
-    elif isinstance(v, ast.Lambda) and isinstance(v.body, ast.Call):
-        factory = v.body.func
-        bound = [a for a in [*v.body.args, *[k.value for k in v.body.keywords]] if is_layer_mapping(a)]
-    if factory is None:
-        res.undecide("C05.R1", construct, f"the matcher factory `{norm(v, 60)}` handed to the wrapped Rule is neither a partial nor a lambda over the matcher class", where_of(view, c))
-        return
-    mc = is_matcher_class(factory)
-    if mc is False:
-        res.add("C05.R1", construct, False, f"the wrapped Rule is built with `{norm(factory, 40)}`, not with the layer matcher: the one-unit-per-layer judgement is not applied", where_of(view, c), kind="structural")
-    elif not bound:
-        res.add("C05.R1", construct, False, "the matcher of the wrapped Rule is not bound to the layer mapping of the architecture", where_of(view, c), kind="flow")
-    elif mc is None:
-        res.undecide("C05.R1", construct, f"cannot tell which matcher class `{norm(factory, 40)}` denotes", where_of(view, c))
+    # ---- the constructions of a matcher performed by the factory: (view they live in, call, arguments incl. bound ones)
+    builds: list[tuple[FuncInfo, ast.expr, list[ast.expr]]] = []
+    fview: FuncInfo | None = None
+    spelling = ""
+    if isinstance(v, ast.Call) and (v.func.attr if isinstance(v.func, ast.Attribute) else getattr(v.func, "id", "")) == "partial" and v.args:
+        spelling = "partial"
+        builds.append((view, v.args[0], [*v.args[1:], *[k.value for k in v.keywords]]))
+    elif isinstance(v, ast.Lambda):
+        spelling = "lambda"
+        for x in ast.walk(v.body):
+            if isinstance(x, ast.Call) and is_matcher_class(view, x.func) is not None:
+                builds.append((view, x.func, [*x.args, *[k.value for k in x.keywords]]))
+        if not builds and isinstance(v.body, ast.Call):
+            builds.append((view, v.body.func, [*v.body.args, *[k.value for k in v.body.keywords]]))
     else:
-        res.add("C05.R1", construct, True, "the wrapped Rule judges with the configured layer matcher, bound to the architecture's layer mapping", where_of(view, c), kind="flow")
+        fn: FuncInfo | None = None
+        if isinstance(v, ast.Attribute) and isinstance(v.value, ast.Name) and v.value.id == (m.param_names[0] if m.param_names else "self"):
+            fn = repo.lookup_method(lr, v.attr)
+        if fn is None:
+            t = typ(view, v)
+            fs = [mm[1] for mm in members(t) if mm[0] == "fn"] if t is not None else []
+            fn = fs[0] if len(fs) == 1 else None
+        if fn is None or isinstance(fn.node, ast.Lambda):
+            mc = is_matcher_class(view, v)
+            if mc is not None:
+                return {**base, "status": "violated", "detail": f"the wrapped Rule is built with `{norm(v, 40)}` itself: " + ("the matcher is not bound to the layer mapping of the architecture" if mc else "not the layer matcher - the one-unit-per-layer judgement is not applied")}
+            return {**base, "status": "undecided", "detail": f"cannot resolve the matcher factory `{norm(v, 60)}` handed to the wrapped Rule"}
+        spelling = f"`{fn.qualname}`"
+        fview = dview(repo, fn, lr if fn.cls is not None else None, family(repo, lr), tag="lr")
+        for x in all_nodes(fview):
+            if isinstance(x, ast.Call) and is_matcher_class(fview, x.func) is not None:
+                builds.append((fview, x.func, [*x.args, *[k.value for k in x.keywords]]))
+        # does the factory keep what it built?  (returns a field that is only filled while it is still empty / never here)
+        decos = set(fn.decorators)
+        if decos & {"cache", "lru_cache", "cached_property"}:
+            base["kept"] = f"{fn.name} (memoised by functools)"
+        selfname = fn.param_names[0] if fn.param_names and fn.cls is not None else None
+        for r in [x for x in all_nodes(fview) if isinstance(x, ast.Return) and x.value is not None]:
+            for _cs, rv in value_cases(fview, r.value):
+                if selfname and isinstance(rv, ast.Attribute) and isinstance(rv.value, ast.Name) and rv.value.id == selfname:
+                    stores = [x for x in all_nodes(fview) if isinstance(x, ast.Attribute) and isinstance(x.ctx, ast.Store) and norm(x) == norm(rv)]
+                    if not any(implies(TRUE, guard_formula(fview, st)) for st in stores):
+                        base["kept"] = rv.attr
+    if not builds:
+        return {**base, "status": "undecided", "detail": f"no construction of a matcher found in the factory ({spelling}) handed to the wrapped Rule"}
+    bad_cls = [(fv, f) for fv, f, _a in builds if is_matcher_class(fv, f) is False]
+    if bad_cls:
+        return {**base, "status": "violated", "detail": f"the wrapped Rule is built with `{norm(bad_cls[0][1], 40)}`, not with the layer matcher: the one-unit-per-layer judgement is not applied"}
+    unbound = [(fv, f) for fv, f, a in builds if not any(is_layer_mapping(fv, x) for x in a)]
+    if unbound:
+        return {**base, "status": "violated", "detail": "the matcher of the wrapped Rule is not bound to the layer mapping of the architecture"}
+    if any(is_matcher_class(fv, f) is None for fv, f, _a in builds):
+        return {**base, "status": "undecided", "detail": f"cannot tell which matcher class `{norm(builds[0][1], 40)}` denotes"}
+    return {**base, "status": "ok", "detail": f"the wrapped Rule judges with the configured layer matcher, bound to the architecture's layer mapping (factory: {spelling}" + (f", which keeps the matcher in `{base['kept']}`" if base["kept"] else "") + ")"}
+
+
+def check_matcher_wiring(repo: Repo, res: Result) -> None:
+    """`layers_that` builds the wrapped Rule with the configured (layer) matcher class bound to the layer mapping of the
+    architecture: without it the module rule is judged per module, not per layer."""
+    lr = repo.cls(LAYER_RULE, "LayerRule")
+    construct = f"{lr.module.relpath}::LayerRule.layers_that::matcher bound to the layer mapping"
+    info = layer_matcher_factory(repo)
+    wh = where_of(info["view"], info["node"]) if info["view"] is not None and info["node"] is not None else ""
+    if info["status"] == "undecided":
+        res.undecide("C05.R1", construct, info["detail"], wh)
+    else:
+        res.add("C05.R1", construct, info["status"] == "ok", info["detail"], wh, kind="flow")
 
 
 # --------------------------------------------------------------------------- the layer mapping a rule evaluates with is current
